@@ -63,24 +63,69 @@ Proof.
 Qed.
 
 
-(* existential packaging: a path whose flag is [false] whenever [C] holds *)
-Definition pathx (C : Prop) (s s' : pool) : Prop := exists b, path b s s' /\ (C -> b = false).
+(* ---- a sharper path relation ----
+   [kf_step] leaves the commission rate and the size of the inputs open.  The steps that the transactions of a pair
+   actually produce are tied to that pair's commission rate [c] and to 128-bit inputs; [path_at c] records this, and
+   every [path_at c] is a [path]. *)
+Inductive kf_step_at (c : N) : pool -> pool -> Prop :=
+| kfa_swap01 x y T a n s m : x < W128 -> y < W128 -> a < W128 ->
+    compute_swap x y a c = Ok (n, s, m) -> kf_c01 x y a c = true -> kf_step_at c (x, y, T) (x + a, y - n, T)
+| kfa_swap10 x y T a n s m : x < W128 -> y < W128 -> a < W128 ->
+    compute_swap y x a c = Ok (n, s, m) -> kf_c01 y x a c = true -> kf_step_at c (x, y, T) (x - n, y + a, T).
 
-Lemma pathx_any (C : Prop) b s s' : path b s s' -> (C -> b = false) -> pathx C s s'.
-Proof. intros H Hc. exists b. split; assumption. Qed.
-Lemma pathx_false (C : Prop) s s' : path false s s' -> pathx C s s'.
-Proof. intros H. exists false. split; [exact H|reflexivity]. Qed.
-Lemma pathx_app (C : Prop) s1 s2 s3 : pathx C s1 s2 -> pathx C s2 s3 -> pathx C s1 s3.
+Inductive path_at (c : N) : bool -> pool -> pool -> Prop :=
+| pa_nil s : path_at c false s s
+| pa_ok b s1 s2 s3 : pool_step s1 s2 -> path_at c b s2 s3 -> path_at c b s1 s3
+| pa_kf b s1 s2 s3 : kf_step_at c s1 s2 -> path_at c b s2 s3 -> path_at c true s1 s3.
+
+Lemma kf_step_at_kf c s s' : kf_step_at c s s' -> kf_step s s'.
+Proof. intros H. destruct H; [eapply kf_swap01|eapply kf_swap10]; eassumption. Qed.
+
+Lemma path_at_path c b s s' : path_at c b s s' -> path b s s'.
 Proof.
-  intros (b1 & H1 & C1) (b2 & H2 & C2). exists (b1 || b2). split; [eapply path_app; eassumption|].
+  induction 1 as [s|b s1 s2 s3 Hst Hrest IH|b s1 s2 s3 Hst Hrest IH].
+  - apply path_nil.
+  - eapply path_ok; eassumption.
+  - eapply path_kf; [eapply kf_step_at_kf; exact Hst|exact IH].
+Qed.
+
+Lemma path_at_app c b1 b2 s1 s2 s3 : path_at c b1 s1 s2 -> path_at c b2 s2 s3 -> path_at c (b1 || b2) s1 s3.
+Proof.
+  intros H1 H2. induction H1 as [s|b s1 s2 s3' Hst Hrest IH|b s1 s2 s3' Hst Hrest IH].
+  - exact H2.
+  - eapply pa_ok; [exact Hst|]. apply IH. exact H2.
+  - cbn [orb]. eapply pa_kf; [exact Hst|]. apply IH. exact H2.
+Qed.
+
+(* a path without kf steps is a path at every commission rate *)
+Lemma path_false_at c s s' : path false s s' -> path_at c false s s'.
+Proof.
+  intros H. pose proof (path_false_steps _ _ _ H eq_refl) as Hs. clear H.
+  induction Hs as [s|s1 s2 s3 Hst Hrest IH]; [apply pa_nil|]. eapply pa_ok; eassumption.
+Qed.
+
+(* existential packaging: a path whose flag is [false] whenever [C] holds *)
+Definition pathx (c : N) (C : Prop) (s s' : pool) : Prop := exists b, path_at c b s s' /\ (C -> b = false).
+
+Lemma pathx_any c (C : Prop) b s s' : path_at c b s s' -> (C -> b = false) -> pathx c C s s'.
+Proof. intros H Hc. exists b. split; assumption. Qed.
+Lemma pathx_false c (C : Prop) s s' : path false s s' -> pathx c C s s'.
+Proof. intros H. exists false. split; [apply path_false_at; exact H|reflexivity]. Qed.
+Lemma pathx_app c (C : Prop) s1 s2 s3 : pathx c C s1 s2 -> pathx c C s2 s3 -> pathx c C s1 s3.
+Proof.
+  intros (b1 & H1 & C1) (b2 & H2 & C2). exists (b1 || b2). split; [eapply path_at_app; eassumption|].
   intros Hc. rewrite (C1 Hc), (C2 Hc). reflexivity.
 Qed.
-Lemma pathx_weaken (C C' : Prop) s s' : (C' -> C) -> pathx C s s' -> pathx C' s s'.
+Lemma pathx_weaken c (C C' : Prop) s s' : (C' -> C) -> pathx c C s s' -> pathx c C' s s'.
 Proof. intros Hi (b & H & Hc). exists b. split; [exact H|]. intros Hc'. apply Hc, Hi, Hc'. Qed.
-Lemma pathx_True s s' : pathx True s s' -> path false s s'.
-Proof. intros (b & H & Hc). rewrite (Hc I) in H. exact H. Qed.
-Lemma pathx_ex (C : Prop) s s' : pathx C s s' -> exists b, path b s s'.
+Lemma pathx_cond c (C : Prop) s s' : pathx c C s s' -> C -> path false s s'.
+Proof. intros (b & H & Hc) HC. rewrite (Hc HC) in H. eapply path_at_path. exact H. Qed.
+Lemma pathx_at c (C : Prop) s s' : pathx c C s s' -> exists b, path_at c b s s'.
 Proof. intros (b & H & _). exists b. exact H. Qed.
+Lemma pathx_ex c (C : Prop) s s' : pathx c C s s' -> exists b, path b s s'.
+Proof. intros (b & H & _). exists b. eapply path_at_path. exact H. Qed.
+Lemma pathx_supply_pos c (C : Prop) s s' : pathx c C s s' -> 0 < supply_of s -> 0 < supply_of s'.
+Proof. intros (b & H & _). eapply path_supply_pos. eapply path_at_path. exact H. Qed.
 
 (* ------------------------------------------------------------------------------------ *)
 (* donations: the account [p] is never debited and the supply of [lp] does not move       *)
@@ -239,13 +284,13 @@ Qed.
 (* ------------------------------------------------------------------------------------ *)
 Lemma swap_steps x y T a c n s m :
   x < W128 -> y < W128 -> a < W128 -> c <= D -> compute_swap x y a c = Ok (n, s, m) ->
-  pathx (kf_c01 x y a c = false) (x, y, T) (x + a, y - n, T) /\
-  pathx (kf_c01 x y a c = false) (y, x, T) (y - n, x + a, T).
+  pathx c (kf_c01 x y a c = false) (x, y, T) (x + a, y - n, T) /\
+  pathx c (kf_c01 x y a c = false) (y, x, T) (y - n, x + a, T).
 Proof.
   intros Hx Hy Ha Hc H. destruct (kf_c01 x y a c) eqn:K.
-  - split; apply (pathx_any _ true); try (intros E; exact E); apply path_kf_step.
-    + eapply kf_swap01; eassumption.
-    + eapply kf_swap10; eassumption.
+  - split; apply (pathx_any _ _ true); try (intros E; exact E); (eapply pa_kf; [|apply pa_nil]).
+    + eapply kfa_swap01; eassumption.
+    + eapply kfa_swap10; eassumption.
   - destruct (swap_is_pool_step x y a c n s m T Hx Hy Ha Hc H K) as (P1 & P2).
     split; apply pathx_false, path_step; assumption.
 Qed.
@@ -263,9 +308,9 @@ Lemma pair_swap_self w1 p ps funds sender offer amount bp ms to w' ret spread co
   bal w' ask p = (if p =? rcv then bal w1 ask p else bal w1 ask p - ret).
 Proof.
   intros H01 H ask rcv.
-  pose proof (pair_swap_settlement _ _ _ _ _ _ _ _ _ _ _ _ _ _ H) as S.
-  cbv zeta in S. fold ask in S. fold rcv in S.
-  destruct S as (Hor & (x & y & Hcs & Hx & Hy) & C & Hb).
+  pose proof (pair_swap_settlement _ _ _ _ _ _ _ _ _ _ _ _ _ _ H) as Hst.
+  cbv zeta in Hst. fold ask in Hst. fold rcv in Hst.
+  destruct Hst as (Hor & (x & y & Hcs & Hx & Hy) & C & Hb).
   pose proof (offer_ask_distinct ps offer H01 Hor) as Hoa. fold ask in Hoa.
   split; [exact Hor|].
   split; [clear - Hx; lia|].
@@ -283,7 +328,7 @@ Lemma swap_self_path w w1 w' p ps funds sender offer amount bp ms to out :
   asset_eqb (p_a0 ps) (p_a1 ps) = false -> p_comm ps <= D -> Solvent w1 ->
   Don p (p_lp ps) w w1 -> bal w offer p + amount <= bal w1 offer p ->
   pair_swap w1 p ps funds sender offer amount bp ms to = Ok (w', out) ->
-  pathx (kf_c01 (bal w1 offer p - amount)
+  pathx (p_comm ps) (kf_c01 (bal w1 offer p - amount)
                 (bal w1 (if asset_eqb offer (p_a0 ps) then p_a1 ps else p_a0 ps) p) amount (p_comm ps) = false)
         (pool_at w p ps) (pool_at w' p ps).
 Proof.
@@ -324,7 +369,7 @@ Lemma pay_then_swap_path w w1 w' p ps p' ps' funds sender offer amount bp ms to 
   Solvent w -> sender <> p -> (p' = p -> ps' = ps) ->
   pay_asset w sender offer amount p' = Ok w1 ->
   pair_swap w1 p' ps' funds sender offer amount bp ms to = Ok (w', out) ->
-  pathx (p' = p -> kf_c01 (bal w offer p) (bal w (if asset_eqb offer (p_a0 ps) then p_a1 ps else p_a0 ps) p)
+  pathx (p_comm ps) (p' = p -> kf_c01 (bal w offer p) (bal w (if asset_eqb offer (p_a0 ps) then p_a1 ps else p_a0 ps) p)
                           amount (p_comm ps) = false)
         (pool_at w p ps) (pool_at w' p ps).
 Proof.
@@ -380,7 +425,7 @@ Qed.
 Lemma router_hop_path w offer ask to w' p ps :
   asset_eqb (p_a0 ps) (p_a1 ps) = false -> p_comm ps <= D ->
   Solvent w -> w_pairs w p = Some ps -> w_rtr w <> p ->
-  router_hop w offer ask to = Ok w' -> pathx False (pool_at w p ps) (pool_at w' p ps).
+  router_hop w offer ask to = Ok w' -> pathx (p_comm ps) False (pool_at w p ps) (pool_at w' p ps).
 Proof.
   intros H01 Hc HS Hp Hr H. apply router_hop_inv in H.
   destruct H as (r & ps' & w1 & funds & out & _ & Hp' & Hpay & Hs).
@@ -392,7 +437,7 @@ Qed.
 Lemma router_hops_path ops : forall w to w' p ps,
   asset_eqb (p_a0 ps) (p_a1 ps) = false -> p_comm ps <= D ->
   Solvent w -> w_pairs w p = Some ps -> w_rtr w <> p ->
-  router_hops w ops to = Ok w' -> pathx False (pool_at w p ps) (pool_at w' p ps).
+  router_hops w ops to = Ok w' -> pathx (p_comm ps) False (pool_at w p ps) (pool_at w' p ps).
 Proof.
   induction ops as [|q ops IH]; intros w to w' p ps H01 Hc HS Hp Hr H.
   - cbn [router_hops] in H. inversion H. apply pathx_false, path_nil.
@@ -410,7 +455,7 @@ Qed.
 Lemma router_exec_ops_path w sender ops m to w' p ps :
   asset_eqb (p_a0 ps) (p_a1 ps) = false -> p_comm ps <= D ->
   Solvent w -> w_pairs w p = Some ps -> w_rtr w <> p ->
-  router_exec_ops w sender ops m to = Ok w' -> pathx False (pool_at w p ps) (pool_at w' p ps).
+  router_exec_ops w sender ops m to = Ok w' -> pathx (p_comm ps) False (pool_at w p ps) (pool_at w' p ps).
 Proof.
   intros H01 Hc HS Hp Hr H. unfold router_exec_ops in H. destruct ops as [|q ops]; [discriminate|].
   bnd H u Hu. cbv zeta in H.
@@ -420,3 +465,882 @@ Proof.
     - eauto. }
   destruct Hh as (w1 & Hh & ->). eapply router_hops_path; eassumption.
 Qed.
+
+(* ------------------------------------------------------------------------------------ *)
+(* withdrawal and provision on the pair itself                                           *)
+(* ------------------------------------------------------------------------------------ *)
+Lemma withdraw_self_path w w1 w' p ps sender amount :
+  asset_eqb (p_a0 ps) (p_a1 ps) = false -> asset_eqb (p_a0 ps) (AToken (p_lp ps)) = false ->
+  asset_eqb (p_a1 ps) (AToken (p_lp ps)) = false -> sender <> p ->
+  Don p (p_lp ps) w w1 -> amount < supply w (p_lp ps) ->
+  pair_withdraw w1 p ps sender amount = Ok w' -> path false (pool_at w p ps) (pool_at w' p ps).
+Proof.
+  intros H01 H0l H1l Hsp D1 Hlt H.
+  pose proof (pair_withdraw_structure _ _ _ _ _ _ H) as (total & x0 & x1 & w2 & w3 & Ht & _).
+  pose proof (token_supply_supply _ _ _ Ht) as Et.
+  apply (path_app false false _ (pool_at w1 p ps)); [apply Don_path; exact D1|].
+  apply path_step. unfold pool_at.
+  pose proof (pair_withdraw_pool_step _ _ _ _ _ _ total H H01 H0l H1l Hsp Ht) as St.
+  rewrite <- Et. apply St. rewrite Et. destruct D1 as (_ & Ds). rewrite Ds. exact Hlt.
+Qed.
+
+(* [pair_provide_pool_step] with the deposits exposed *)
+Lemma pair_provide_self w p ps c funds l0 n0 l1 n1 tol rcv w' total :
+  pair_provide w p ps c funds l0 n0 l1 n1 tol rcv = Ok w' ->
+  asset_eqb (p_a0 ps) (p_a1 ps) = false -> asset_eqb (p_a0 ps) (AToken (p_lp ps)) = false ->
+  asset_eqb (p_a1 ps) (AToken (p_lp ps)) = false -> c <> p ->
+  token_supply w (p_lp ps) = Ok total -> total <> 0 ->
+  exists d0 d1,
+    deposit_of (p_a0 ps) l0 n0 l1 n1 = Ok d0 /\ deposit_of (p_a1 ps) l0 n0 l1 n1 = Ok d1 /\
+    pool_step ((if asset_is_native (p_a0 ps) then bal w (p_a0 ps) p - d0 else bal w (p_a0 ps) p),
+               (if asset_is_native (p_a1 ps) then bal w (p_a1 ps) p - d1 else bal w (p_a1 ps) p), total)
+              (bal w' (p_a0 ps) p, bal w' (p_a1 ps) p, supply w' (p_lp ps)).
+Proof.
+  intros H H01 H0l H1l Hcp Ht HT0.
+  apply pair_provide_structure in H.
+  destruct H as (r0 & r1 & d0 & d1 & q0 & q1 & total' & share & Hr0 & Hr1 & Hd0 & Hd1 & Eq0 & Lq0 & Eq1 & Lq1 & _ &
+                 Ht' & Hls & _ & w1 & w2 & Hw1 & Hw2 & H).
+  cbv zeta in H.
+  rewrite Ht in Ht'. inversion Ht'. subst total'. clear Ht'.
+  destruct (total =? 0) eqn:Et; [apply N.eqb_eq in Et; contradiction|]. clear Et.
+  apply asset_balance_bal in Hr0. apply asset_balance_bal in Hr1. subst r0 r1.
+  assert (H10 : asset_eqb (p_a1 ps) (p_a0 ps) = false) by (rewrite LedgerProofs.asset_eqb_sym; exact H01).
+  assert (Sup : supply w' (p_lp ps) = total + share).
+  { pose proof (pull_other _ _ _ _ _ Hw1 H0l) as T1.
+    pose proof (pull_other _ _ _ _ _ Hw2 H1l) as T2.
+    rewrite T1 in T2.
+    destruct (mint_effect _ _ _ _ _ _ H) as (tk & tk' & A1 & A' & S' & _).
+    unfold token_supply in Ht. unfold supply. rewrite A'.
+    rewrite T2 in A1. rewrite A1 in Ht. inversion Ht. subst total. exact S'. }
+  destruct (pull_effect _ _ _ _ _ _ Hw1 Hcp) as (P1 & O1).
+  destruct (pull_effect _ _ _ _ _ _ Hw2 Hcp) as (P2 & O2).
+  pose proof (with_token_other _ _ _ _ H) as O3.
+  assert (B0 : bal w' (p_a0 ps) p = q0 + d0).
+  { rewrite (O3 _ H0l), (O2 _ H01), P1, Eq0.
+    destruct (asset_is_native (p_a0 ps)); [|reflexivity].
+    specialize (Lq0 eq_refl). clear - Lq0. lia. }
+  assert (B1 : bal w' (p_a1 ps) p = q1 + d1).
+  { rewrite (O3 _ H1l), P2, (O1 _ H10), Eq1.
+    destruct (asset_is_native (p_a1 ps)); [|reflexivity].
+    specialize (Lq1 eq_refl). clear - Lq1. lia. }
+  exists d0, d1. split; [exact Hd0|]. split; [exact Hd1|].
+  rewrite <- Eq0, <- Eq1, B0, B1, Sup.
+  eapply provide_is_pool_step; [exact HT0 | exact Hls].
+Qed.
+
+Lemma pair_provide_funds w p ps c funds l0 n0 l1 n1 tol rcv w' :
+  pair_provide w p ps c funds l0 n0 l1 n1 tol rcv = Ok w' ->
+  funds_of l0 funds n0 = Ok tt /\ funds_of l1 funds n1 = Ok tt.
+Proof.
+  unfold pair_provide. intros H. bnd H u0 H0. bnd H u1 H1. destruct u0, u1. split; assumption.
+Qed.
+
+(* ---- attached funds: the recipient is credited with at least the first listed coin of each denom ---- *)
+Lemma bank_add_all_credit cs : forall b a b' d,
+  bank_add_all b a (nonzero_coins cs) = Ok b' -> b a d + cval cs d <= b' a d.
+Proof.
+  induction cs as [|[d0 n] cs IH]; intros b a b' d H.
+  - unfold nonzero_coins in H. cbn [filter bank_add_all] in H. inversion H. unfold cval. cbn [find]. rewrite N.add_0_r. apply N.le_refl.
+  - rewrite cval_cons. unfold nonzero_coins in H. cbn [filter snd] in H. fold (nonzero_coins cs) in H.
+    destruct (n =? 0) eqn:E0; cbn [negb] in H.
+    + destruct (d0 =? d) eqn:Ed; [|apply IH; exact H].
+      apply N.eqb_eq in E0. subst n. rewrite N.add_0_r. eapply bank_add_all_ge. exact H.
+    + cbn [bank_add_all] in H. destruct (b a d0 + n <? W128); [|discriminate].
+      destruct (d0 =? d) eqn:Ed.
+      * apply N.eqb_eq in Ed. subst d0.
+        pose proof (bank_add_all_ge _ _ _ _ H a d) as G. rewrite upd2_same in G. exact G.
+      * pose proof (IH _ _ _ d H) as G. rewrite upd2_other in G; [exact G|].
+        right. apply N.eqb_neq in Ed. congruence.
+Qed.
+
+Lemma move_funds_credit w from to funds w' d :
+  from <> to -> move_funds w from to funds = Ok w' -> w_bank w to d + cval funds d <= w_bank w' to d.
+Proof.
+  intros Hft H. unfold move_funds in H. destruct funds as [|c funds].
+  - inversion H. unfold cval. cbn [find]. rewrite N.add_0_r. apply N.le_refl.
+  - unfold bank_send in H. remember (c :: funds) as cs eqn:Ecs. clear Ecs.
+    destruct (nonzero_coins cs) as [|c1 nz] eqn:Enz; [discriminate|].
+    bnd H b1 H1. bnd H b2 H2. inversion H. subst w'. cbn [set_bank w_bank].
+    rewrite <- Enz in H2. pose proof (bank_add_all_credit cs b1 to b2 d H2) as G.
+    rewrite (bank_sub_all_other _ _ _ _ H1 to d) in G by congruence. exact G.
+Qed.
+
+Lemma funds_of_cval d funds amount : funds_of (ANative d) funds amount = Ok tt -> amount = cval funds d.
+Proof.
+  unfold funds_of, cval. destruct (find (fun c => fst c =? d) funds) as [c|].
+  - destruct (amount =? snd c) eqn:E; [|discriminate]. intros _. apply N.eqb_eq in E. exact E.
+  - destruct (amount =? 0) eqn:E; [|discriminate]. intros _. apply N.eqb_eq in E. exact E.
+Qed.
+
+Lemma deposit_cval d funds l0 n0 l1 n1 d0 :
+  funds_of l0 funds n0 = Ok tt -> funds_of l1 funds n1 = Ok tt ->
+  deposit_of (ANative d) l0 n0 l1 n1 = Ok d0 -> d0 = cval funds d.
+Proof.
+  unfold deposit_of. intros F0 F1 H. destruct (asset_eqb l0 (ANative d)) eqn:E0.
+  - apply LedgerProofs.asset_eqb_eq in E0. subst l0. inversion H. subst d0. apply funds_of_cval. exact F0.
+  - destruct (asset_eqb l1 (ANative d)) eqn:E1; [|discriminate].
+    apply LedgerProofs.asset_eqb_eq in E1. subst l1. inversion H. subst d0. apply funds_of_cval. exact F1.
+Qed.
+
+Lemma provide_pre_le w w1 p c funds a l0 n0 l1 n1 d0 :
+  c <> p -> move_funds w c p funds = Ok w1 ->
+  funds_of l0 funds n0 = Ok tt -> funds_of l1 funds n1 = Ok tt -> deposit_of a l0 n0 l1 n1 = Ok d0 ->
+  bal w a p <= (if asset_is_native a then bal w1 a p - d0 else bal w1 a p).
+Proof.
+  intros Hcp Hm F0 F1 Hd. destruct a as [d|t]; cbn [asset_is_native].
+  - cbn [bal]. rewrite (deposit_cval _ _ _ _ _ _ _ F0 F1 Hd).
+    pose proof (move_funds_credit _ _ _ _ _ d Hcp Hm) as G. clear - G. lia.
+  - assert (Hpc : p <> c) by congruence.
+    apply (move_funds_Gs p _ _ _ _ _ Hpc Hm).
+Qed.
+
+Lemma provide_self_path w w1 w' p ps c funds l0 n0 l1 n1 tol rcv :
+  asset_eqb (p_a0 ps) (p_a1 ps) = false -> asset_eqb (p_a0 ps) (AToken (p_lp ps)) = false ->
+  asset_eqb (p_a1 ps) (AToken (p_lp ps)) = false -> c <> p -> 0 < supply w (p_lp ps) ->
+  move_funds w c p funds = Ok w1 -> pair_provide w1 p ps c funds l0 n0 l1 n1 tol rcv = Ok w' ->
+  path false (pool_at w p ps) (pool_at w' p ps).
+Proof.
+  intros H01 H0l H1l Hcp Hpos Hm H.
+  destruct (pair_provide_funds _ _ _ _ _ _ _ _ _ _ _ _ H) as (F0 & F1).
+  pose proof (pair_provide_structure _ _ _ _ _ _ _ _ _ _ _ _ H) as
+    (r0 & r1 & d0' & d1' & q0 & q1 & total & share & _ & _ & _ & _ & _ & _ & _ & _ & _ & Ht & _).
+  pose proof (token_supply_supply _ _ _ Ht) as Et.
+  rewrite (move_funds_supply _ _ _ _ _ (p_lp ps) Hm) in Et.
+  assert (HT0 : total <> 0) by (clear - Et Hpos; lia).
+  destruct (pair_provide_self _ _ _ _ _ _ _ _ _ _ _ _ total H H01 H0l H1l Hcp Ht HT0) as (d0 & d1 & Hd0 & Hd1 & St).
+  eapply path_ok; [|apply path_step; exact St].
+  unfold pool_at. rewrite <- Et. apply donate_to; [exact (provide_pre_le _ _ _ _ _ _ _ _ _ _ _ Hcp Hm F0 F1 Hd0)|exact (provide_pre_le _ _ _ _ _ _ _ _ _ _ _ Hcp Hm F0 F1 Hd1)].
+Qed.
+
+(* ------------------------------------------------------------------------------------ *)
+(* operations that move no funds                                                         *)
+(* ------------------------------------------------------------------------------------ *)
+Definition Same (w w' : world) : Prop := w_bank w' = w_bank w /\ w_tokens w' = w_tokens w.
+Lemma Same_refl w : Same w w.
+Proof. split; reflexivity. Qed.
+Lemma Same_trans w1 w2 w3 : Same w1 w2 -> Same w2 w3 -> Same w1 w3.
+Proof. intros (A1 & A2) (B1 & B2). split; congruence. Qed.
+Lemma Same_Don p lp w w' : Same w w' -> Don p lp w w'.
+Proof.
+  intros (Hb & Ht). split; [apply (Gs_same p _ _ Hb Ht)|]. unfold supply. rewrite Ht. reflexivity.
+Qed.
+
+Lemma pair_update_decimals_Same w p ps c dn d0 d1 w' : pair_update_decimals w p ps c dn d0 d1 = Ok w' -> Same w w'.
+Proof.
+  unfold pair_update_decimals. destruct (negb _); [discriminate|].
+  destruct (_ || _); intros H; inversion H; split; reflexivity.
+Qed.
+
+Lemma fac_update_records_Same dn k todo : forall w done w', fac_update_records w dn k todo done = Ok w' -> Same w w'.
+Proof.
+  induction todo as [|r todo IH]; intros w done w' H; cbn [fac_update_records] in H.
+  - inversion H. split; reflexivity.
+  - cbv zeta in H. bnd H w1 H1. bnd H w2 H2. apply IH in H.
+    assert (S1 : Same w w1).
+    { destruct (asset_eqb (f_a0 r) (ANative dn)); [|inversion H1; apply Same_refl].
+      destruct (w_pairs w (f_pair r)); [|discriminate]. eapply pair_update_decimals_Same. exact H1. }
+    assert (S2 : Same w1 w2).
+    { destruct (asset_eqb (f_a1 r) (ANative dn)); [|inversion H2; apply Same_refl].
+      destruct (w_pairs w1 (f_pair r)); [|discriminate]. eapply pair_update_decimals_Same. exact H2. }
+    eapply Same_trans; [exact S1|]. eapply Same_trans; eassumption.
+Qed.
+
+Lemma fac_add_native_Same w c dn k w' : fac_add_native w c dn k = Ok w' -> Same w w'.
+Proof.
+  unfold fac_add_native. cbv zeta. destruct (negb _); [discriminate|].
+  destruct (_ =? 0); [discriminate|].
+  destruct (w_natives w dn); intros H.
+  - apply fac_update_records_Same in H. eapply Same_trans; [|exact H]. split; reflexivity.
+  - inversion H. split; reflexivity.
+Qed.
+
+Lemma fac_update_config_Same w c o w' : fac_update_config w c o = Ok w' -> Same w w'.
+Proof.
+  unfold fac_update_config. destruct (negb _); [discriminate|]. intros H. inversion H.
+  destruct o; split; reflexivity.
+Qed.
+
+Lemma fac_migrate_pair_Same w c ct w' : fac_migrate_pair w c ct = Ok w' -> Same w w'.
+Proof.
+  unfold fac_migrate_pair. destruct (negb _); [discriminate|]. destruct (w_pairs w ct); [|discriminate].
+  intros H. inversion H. apply Same_refl.
+Qed.
+
+Lemma increase_allowance_Don p lp w ta ow sp n w' :
+  with_token w ta (fun t => tok_increase_allowance t ow sp n) = Ok w' -> Don p lp w w'.
+Proof.
+  intros H. split.
+  - eapply with_token_Dm; [|exact H]. intros t t' _ Hf. cbv beta in Hf.
+    unfold tok_increase_allowance in Hf. destruct (sp =? ow); [discriminate|]. cbv zeta in Hf.
+    destruct (_ <? W128); [|discriminate]. inversion Hf. cbn [t_bal]. apply N.le_refl.
+  - eapply with_token_supply; [exact H|]. intros _ t t' _ Hf. cbv beta in Hf.
+    unfold tok_increase_allowance in Hf. destruct (sp =? ow); [discriminate|]. cbv zeta in Hf.
+    destruct (_ <? W128); [|discriminate]. inversion Hf. reflexivity.
+Qed.
+
+Lemma fac_create_pair_Don p lp w c a0 a1 wl m0 m1 cm ld w' :
+  WF w -> lp < w_next w -> fac_create_pair w c a0 a1 wl m0 m1 cm ld = Ok w' -> Don p lp w w'.
+Proof.
+  intros HW Hl H. split.
+  - assert (Hf : w_tokens w (w_next w + 1) = None) by (apply (WF_fresh_tokens w HW); clear; lia).
+    intros y. rewrite (fac_create_pair_same_bal _ _ _ _ _ _ _ _ _ _ Hf H y p). apply N.le_refl.
+  - apply fac_create_pair_inv in H. destruct H as (ps & lt & r & _ & _ & _ & ->).
+    unfold supply. cbn [w_tokens set_next set_reg set_token set_pair].
+    rewrite upd_other by (clear - Hl; lia). reflexivity.
+Qed.
+
+(* distinct pairs have distinct LP tokens: the LP token's minter is its pair *)
+Lemma lp_inj w p ps p' ps' :
+  WF w -> w_pairs w p = Some ps -> w_pairs w p' = Some ps' -> p_lp ps = p_lp ps' -> p = p'.
+Proof.
+  intros HW Hp Hp' E.
+  destruct (WF_pair _ _ _ HW Hp) as (_ & _ & _ & (lt & A & B) & _).
+  destruct (WF_pair _ _ _ HW Hp') as (_ & _ & _ & (lt' & A' & B') & _).
+  rewrite E in A. rewrite A in A'. inversion A'. subst lt'. congruence.
+Qed.
+
+(* ------------------------------------------------------------------------------------ *)
+(* operation classes                                                                     *)
+(* ------------------------------------------------------------------------------------ *)
+Definition routerless (o : op) : bool :=
+  match o with
+  | ORouterOps _ _ _ _ _ | ORouterOp _ _ _ _ _ | ORouterReceive _ _ _ _ => false
+  | OSend _ _ _ _ (HRouterOps _ _ _) => false
+  | _ => true
+  end.
+Definition swap_hook (h : hook) : bool :=
+  match h with HSwap _ _ _ _ _ | HRouterOps _ _ _ => true | _ => false end.
+(* operations that cannot perform a swap *)
+Definition swapless (o : op) : bool :=
+  match o with
+  | OSwap _ _ _ _ _ _ _ _ => false
+  | OSend _ _ _ _ h | OPairReceive _ _ _ _ _ h => negb (swap_hook h)
+  | ORouterOps _ _ _ _ _ | ORouterOp _ _ _ _ _ | ORouterReceive _ _ _ _ => false
+  | _ => true
+  end.
+
+(* ------------------------------------------------------------------------------------ *)
+(* every transaction, every pair                                                         *)
+(* ------------------------------------------------------------------------------------ *)
+Lemma exec_pathx w o w' p ps :
+  WF w -> Solvent w -> Inert' w -> ~ is_contract w (caller_of o) ->
+  (routerless o = false -> w_pairs w (w_rtr w) = None) ->
+  exec w o = Ok w' -> w_pairs w p = Some ps -> 0 < supply w (p_lp ps) ->
+  pathx (p_comm ps) (swapless o = true) (pool_at w p ps) (pool_at w' p ps).
+Proof.
+  intros HW HS HI Hc Hrt H Hp Hpos.
+  destruct (WF_pair _ _ _ HW Hp) as (Kn & Kln & Klp & (lt & Klt & Kmint) & H01 & H0l & H1l & Ktok & Hcm & _).
+  assert (Hpc : is_contract w p) by (right; right; left; rewrite Hp; discriminate).
+  assert (Hlc : is_contract w (p_lp ps)) by (right; right; right; left; rewrite Klt; discriminate).
+  assert (Hpu : p <> caller_of o) by (intros E; apply Hc; rewrite <- E; exact Hpc).
+  assert (Hup : caller_of o <> p) by congruence.
+  assert (Hlu : p_lp ps <> caller_of o) by (intros E; apply Hc; rewrite <- E; exact Hlc).
+  destruct HI as ((I1 & I2) & R1 & R2).
+  pose proof (I2 _ _ Hp Hpos) as Hunit.
+  assert (Hrp : routerless o = false -> w_rtr w <> p).
+  { intros E Er. specialize (Hrt E). rewrite Er in Hrt. congruence. }
+  destruct o; cbn [caller_of swapless routerless swap_hook] in *.
+  - (* OBankSend *) cbn [exec] in H. apply pathx_false, Don_path. eapply bank_send_Don; eassumption.
+  - (* OTransfer *) cbn [exec] in H. apply pathx_false, Don_path. eapply transfer_Don; eassumption.
+  - (* OTransferFrom *)
+    cbn [exec] in H. apply pathx_false, Don_path. eapply transfer_from_Don; [|exact H].
+    intros E. subst owner. apply with_token_inv in H. destruct H as (t & t' & Ht & Hf & _).
+    apply tok_transfer_from_inv in Hf. destruct Hf as (Hal & _). apply Hal. eapply I1; eassumption.
+  - (* OIncreaseAllowance *) cbn [exec] in H. apply pathx_false, Don_path. eapply increase_allowance_Don; exact H.
+  - (* OMint *)
+    cbn [exec] in H. apply pathx_false, Don_path. eapply mint_Don; [|exact H].
+    intros E. subst ta. apply with_token_inv in H. destruct H as (t & t' & Ht & Hf & _).
+    apply tok_mint_inv in Hf. destruct Hf as (_ & _ & Hm & _).
+    rewrite Klt in Ht. inversion Ht. subst t. rewrite Kmint in Hm. inversion Hm. contradiction.
+  - (* OBurn *)
+    cbn [exec] in H. destruct (N.eq_dec (p_lp ps) ta) as [E|Ne].
+    + subst ta. apply pathx_false, path_step. apply burn_effect in H. destruct H as (Hle & Hsup & Hb).
+      unfold pool_at. rewrite !Hb, H0l, H1l. cbn [andb].
+      assert (Hsl : sender <> p_lp ps) by congruence.
+      pose proof (Solvent_token_two w (p_lp ps) sender (p_lp ps) HS Hsl) as L.
+      replace (supply w' (p_lp ps)) with (supply w (p_lp ps) - n) by (clear - Hsup; lia).
+      apply ps_burn. clear - L Hle Hunit. lia.
+    + apply pathx_false, Don_path. eapply burn_Don; eassumption.
+  - (* OSend *)
+    destruct (w_pairs w target) as [ps'|] eqn:Ept.
+    + destruct h as [offer amount bp ms to| |rops m to|].
+      * (* swap hook *)
+        cbn [exec] in H.
+        destruct (cw20_send_swap_decompose _ _ _ _ _ _ _ _ _ _ _ _ Ept H) as (w1 & out & Hm & Eo & En & _ & Hs).
+        subst offer amount.
+        assert (Hps : target = p -> ps' = ps) by (intros E; rewrite E in Ept; congruence).
+        eapply pathx_weaken;
+          [|exact (pay_then_swap_path w w1 w' p ps target ps' [] sender (AToken ta) n bp ms to out H01 Hcm HS Hup Hps Hm Hs)].
+        intros E. discriminate E.
+      * (* withdraw hook *)
+        cbn [exec] in H. unfold cw20_send in H. bnd H w1 H1.
+        rewrite (with_token_pairs _ _ _ _ H1), Ept in H. cbn [pair_receive] in H.
+        destruct (ta =? p_lp ps') eqn:Eta; cbn [negb] in H; [|discriminate]. apply N.eqb_eq in Eta. subst ta.
+        pose proof (transfer_Don p (p_lp ps) _ _ _ _ _ _ Hpu H1) as D1.
+        apply pathx_false.
+        destruct (N.eq_dec target p) as [E|Ne].
+        -- subst target. rewrite Hp in Ept. inversion Ept. subst ps'.
+           apply (withdraw_self_path w w1 w' p ps sender n H01 H0l H1l Hup D1); [|exact H].
+           change (pay_asset w sender (AToken (p_lp ps)) n p = Ok w1) in H1.
+           apply pay_asset_effect in H1. destruct H1 as (_ & Hle & _).
+           assert (Hsl : sender <> p_lp ps) by congruence.
+           pose proof (Solvent_token_two w (p_lp ps) sender (p_lp ps) HS Hsl) as L.
+           clear - L Hle Hunit. lia.
+        -- apply Don_path. eapply Don_trans; [exact D1|]. apply (pair_withdraw_Don p (p_lp ps) w1 target ps' sender n); [congruence| |exact H].
+           intros E. apply Ne. symmetry. eapply (lp_inj w p ps target ps'); eassumption.
+      * cbn [exec] in H. unfold cw20_send in H. bnd H w1 H1.
+        rewrite (with_token_pairs _ _ _ _ H1), Ept in H. cbn [pair_receive] in H. discriminate.
+      * cbn [exec] in H. unfold cw20_send in H. bnd H w1 H1.
+        rewrite (with_token_pairs _ _ _ _ H1), Ept in H. cbn [pair_receive] in H. discriminate.
+    + cbn [exec] in H. unfold cw20_send in H. bnd H w1 H1.
+      rewrite (with_token_pairs _ _ _ _ H1), Ept in H.
+      destruct (target =? w_rtr w1); [|discriminate].
+      destruct h as [| |rops m to|]; try discriminate.
+      pose proof (with_token_keeps _ _ _ _ H1) as (_ & Kr & Kp).
+      eapply pathx_weaken;
+        [|eapply pathx_app;
+          [apply pathx_false, Don_path, (transfer_Don p (p_lp ps) _ _ _ _ _ _ Hpu H1)|
+           eapply (router_exec_ops_path w1);
+           [exact H01|exact Hcm|exact (tok_transfer_pres _ _ _ _ _ _ H1 HS)|rewrite Kp; exact Hp|
+            rewrite Kr; apply Hrp; reflexivity|exact H]]].
+      intros E. discriminate E.
+  - (* OProvide *)
+    cbn [exec] in H. destruct (w_pairs w p0) as [ps0|] eqn:Ep0; [|discriminate]. bnd H w1 H1.
+    apply pathx_false. destruct (N.eq_dec p0 p) as [E|Ne].
+    + subst p0. rewrite Hp in Ep0. inversion Ep0. subst ps0.
+      exact (provide_self_path w w1 w' p ps caller funds l0 n0 l1 n1 tol receiver H01 H0l H1l Hup Hpos H1 H).
+    + apply Don_path. eapply Don_trans; [eapply move_funds_Don; [exact Hpu|exact H1]|].
+      apply (pair_provide_Don p (p_lp ps) w1 p0 ps0 caller funds l0 n0 l1 n1 tol receiver); [exact Hpu| |exact H].
+      intros E. apply Ne. symmetry. eapply (lp_inj w p ps p0 ps0); eassumption.
+  - (* OSwap *)
+    apply exec_swap_decompose in H. destruct H as (ps0 & w1 & out & Hp0 & Hm & Hnat & Hfo & Hs).
+    pose proof (move_funds_Don p (p_lp ps) _ _ _ _ _ Hpu Hm) as D1.
+    destruct (N.eq_dec p0 p) as [E|Ne].
+    + subst p0. rewrite Hp in Hp0. inversion Hp0. subst ps0.
+      eapply pathx_weaken;
+        [|apply (swap_self_path w w1 w' p ps funds caller offer amount belief ms to out H01 Hcm
+                   (move_funds_pres _ _ _ _ _ Hm HS) D1); [|exact Hs]].
+      * intros E. discriminate E.
+      * destruct offer as [d|t]; [|discriminate Hnat]. cbn [bal]. rewrite (funds_of_cval _ _ _ Hfo).
+        exact (move_funds_credit w caller p funds w1 d Hup Hm).
+    + apply pathx_false, Don_path. eapply Don_trans; [exact D1|].
+      apply (pair_swap_Don p (p_lp ps)) in Hs; [exact Hs|congruence].
+  - (* OPairReceive: only a token contract or an LP token can be the caller *)
+    exfalso. cbn [exec] in H. destruct (w_pairs w p0) as [ps0|] eqn:Ep0; [|discriminate]. bnd H w1 H1.
+    destruct (WF_pair _ _ _ HW Ep0) as (_ & _ & _ & (lt0 & Klt0 & _) & _ & _ & _ & Ktok0 & _).
+    apply Hc. right. right. right. left.
+    destruct h as [offer amount bp ms to| |rops m to|]; cbn [pair_receive] in H; try discriminate.
+    + destruct (negb (amount =? cw_amount)); [discriminate|]. bnd H b0 Hb0. bnd H b1 Hb1.
+      destruct (asset_eqb (p_a0 ps0) (AToken caller) || asset_eqb (p_a1 ps0) (AToken caller)) eqn:Ea;
+        cbn [negb] in H; [|discriminate].
+      apply Ktok0. apply orb_true_iff in Ea.
+      destruct Ea as [Ea|Ea]; apply LedgerProofs.asset_eqb_eq in Ea; [left|right]; exact Ea.
+    + destruct (caller =? p_lp ps0) eqn:Ec; cbn [negb] in H; [|discriminate].
+      apply N.eqb_eq in Ec. subst caller. rewrite Klt0. discriminate.
+  - (* OPairUpdateDecimals *)
+    cbn [exec] in H. destruct (w_pairs w p0) as [ps0|]; [|discriminate].
+    apply pathx_false, Don_path, Same_Don. eapply pair_update_decimals_Same. exact H.
+  - (* ORouterOps *)
+    cbn [exec] in H. bnd H w1 H1.
+    pose proof (move_funds_keeps _ _ _ _ _ H1) as (_ & Kr & Kp).
+    eapply pathx_weaken;
+      [|eapply pathx_app;
+        [apply pathx_false, Don_path, (move_funds_Don p (p_lp ps) _ _ _ _ _ Hpu H1)|
+         eapply (router_exec_ops_path w1);
+         [exact H01|exact Hcm|exact (move_funds_pres _ _ _ _ _ H1 HS)|rewrite Kp; exact Hp|
+          rewrite Kr; apply Hrp; reflexivity|exact H]]].
+    intros E. discriminate E.
+  - (* ORouterOp: only the router calls it *)
+    exfalso. cbn [exec] in H. bnd H w1 H1.
+    destruct (caller =? w_rtr w) eqn:Ec; cbn [negb] in H; [|discriminate].
+    apply N.eqb_eq in Ec. apply Hc. right. left. exact Ec.
+  - (* ORouterAssertMin *)
+    cbn [exec] in H. destruct (negb _); [discriminate|]. apply router_assert_min_same in H. subst w'.
+    apply pathx_false, path_nil.
+  - (* ORouterReceive *)
+    cbn [exec] in H. destruct h as [| |rops m to|]; try discriminate.
+    eapply pathx_weaken;
+      [|eapply (router_exec_ops_path w); [exact H01|exact Hcm|exact HS|exact Hp|apply Hrp; reflexivity|exact H]].
+    intros E. discriminate E.
+  - (* OFacUpdateConfig *)
+    cbn [exec] in H. apply pathx_false, Don_path, Same_Don. eapply fac_update_config_Same. exact H.
+  - (* OFacCreatePair *)
+    cbn [exec] in H. apply pathx_false, Don_path. eapply fac_create_pair_Don; eassumption.
+  - (* OFacAddNative *)
+    cbn [exec] in H. apply pathx_false, Don_path, Same_Don. eapply fac_add_native_Same. exact H.
+  - (* OFacMigrate *)
+    cbn [exec] in H. apply pathx_false, Don_path, Same_Don. eapply fac_migrate_pair_Same. exact H.
+Qed.
+
+Lemma swapless_routerless o : swapless o = true -> routerless o = true.
+Proof.
+  destruct o; cbn [swapless routerless]; try reflexivity; try discriminate.
+  destruct h; cbn [swap_hook negb]; try reflexivity; discriminate.
+Qed.
+
+(* ---- theorem 2 ---- *)
+(* ORIGINAL STATEMENT (needs one more hypothesis, see the end of the file):
+   Theorem exec_pool_path : forall w o w' p ps, WF w -> Solvent w -> Inert' w -> ~ is_contract w (caller_of o) ->
+     exec w o = Ok w' -> w_pairs w p = Some ps -> 0 < supply w (p_lp ps) ->
+     exists b, path b (pool_at w p ps) (pool_at w' p ps).
+   [WF], [Solvent] and [Inert'] do not exclude that the router's address is itself a pair; the router then forwards
+   that pair's whole reserve of the offered asset along the route.  The extra hypothesis says the router is not a
+   pair; it is an invariant ([exec_rtr_not_pair]) and holds in the harness's initial world. *)
+Theorem exec_pool_path_variant : forall w o w' p ps,
+  WF w -> Solvent w -> Inert' w -> w_pairs w (w_rtr w) = None -> ~ is_contract w (caller_of o) ->
+  exec w o = Ok w' -> w_pairs w p = Some ps -> 0 < supply w (p_lp ps) ->
+  exists b, path b (pool_at w p ps) (pool_at w' p ps).
+Proof.
+  intros w o w' p ps HW HS HI Hr Hc H Hp Hpos.
+  eapply pathx_ex. eapply exec_pathx; try eassumption. intros _. exact Hr.
+Qed.
+
+(* the original hypotheses suffice for every operation that does not enter the router *)
+Theorem exec_pool_path_routerless : forall w o w' p ps,
+  WF w -> Solvent w -> Inert' w -> ~ is_contract w (caller_of o) -> routerless o = true ->
+  exec w o = Ok w' -> w_pairs w p = Some ps -> 0 < supply w (p_lp ps) ->
+  exists b, path b (pool_at w p ps) (pool_at w' p ps).
+Proof.
+  intros w o w' p ps HW HS HI Hc Hrl H Hp Hpos.
+  eapply pathx_ex. eapply exec_pathx; try eassumption. intros E. rewrite Hrl in E. discriminate E.
+Qed.
+
+(* the router operations *)
+Theorem exec_pool_path_router : forall w o w' p ps,
+  WF w -> Solvent w -> Inert' w -> w_pairs w (w_rtr w) = None -> ~ is_contract w (caller_of o) ->
+  routerless o = false ->
+  exec w o = Ok w' -> w_pairs w p = Some ps -> 0 < supply w (p_lp ps) ->
+  exists b, path b (pool_at w p ps) (pool_at w' p ps).
+Proof. intros w o w' p ps HW HS HI Hr Hc _. apply exec_pool_path_variant; assumption. Qed.
+
+(* the master statement, unpacked: kf steps at the pair's own commission rate, the flag is [false] for every operation
+   that cannot swap, and the router hypothesis is needed for router operations only *)
+Theorem exec_pool_path_flag : forall w o w' p ps,
+  WF w -> Solvent w -> Inert' w -> ~ is_contract w (caller_of o) ->
+  (routerless o = false -> w_pairs w (w_rtr w) = None) ->
+  exec w o = Ok w' -> w_pairs w p = Some ps -> 0 < supply w (p_lp ps) ->
+  exists b, path_at (p_comm ps) b (pool_at w p ps) (pool_at w' p ps) /\ (swapless o = true -> b = false).
+Proof. intros w o w' p ps. exact (exec_pathx w o w' p ps). Qed.
+
+(* the sharper form: the kf steps are swaps at this pair's own commission rate, on 128-bit inputs *)
+Theorem exec_pool_path_at_variant : forall w o w' p ps,
+  WF w -> Solvent w -> Inert' w -> w_pairs w (w_rtr w) = None -> ~ is_contract w (caller_of o) ->
+  exec w o = Ok w' -> w_pairs w p = Some ps -> 0 < supply w (p_lp ps) ->
+  exists b, path_at (p_comm ps) b (pool_at w p ps) (pool_at w' p ps).
+Proof.
+  intros w o w' p ps HW HS HI Hr Hc H Hp Hpos.
+  eapply pathx_at. eapply exec_pathx; try eassumption. intros _. exact Hr.
+Qed.
+
+(* ---- theorem 3 ---- *)
+Theorem exec_swapless_value : forall w o w' p ps,
+  WF w -> Solvent w -> Inert' w -> ~ is_contract w (caller_of o) -> swapless o = true ->
+  exec w o = Ok w' -> w_pairs w p = Some ps -> 0 < supply w (p_lp ps) ->
+  path false (pool_at w p ps) (pool_at w' p ps).
+Proof.
+  intros w o w' p ps HW HS HI Hc Hsl H Hp Hpos.
+  assert (X : pathx (p_comm ps) (swapless o = true) (pool_at w p ps) (pool_at w' p ps)).
+  { eapply exec_pathx; try eassumption. intros E. rewrite (swapless_routerless _ Hsl) in E. discriminate E. }
+  exact (pathx_cond _ _ _ _ X Hsl).
+Qed.
+
+Corollary exec_swapless_value_le : forall w o w' p ps,
+  WF w -> Solvent w -> Inert' w -> ~ is_contract w (caller_of o) -> swapless o = true ->
+  exec w o = Ok w' -> w_pairs w p = Some ps -> 0 < supply w (p_lp ps) ->
+  value_le (pool_at w p ps) (pool_at w' p ps) /\ 0 < supply w' (p_lp ps).
+Proof.
+  intros w o w' p ps HW HS HI Hc Hsl H Hp Hpos.
+  apply (path_false_value (pool_at w p ps) (pool_at w' p ps)); [|exact Hpos].
+  eapply exec_swapless_value; eassumption.
+Qed.
+
+(* ---- theorem 4 ---- *)
+(* general funds: the swap is priced on the reserves after the attached funds arrive, net of the offer *)
+Theorem exec_direct_swap_value_funds : forall w p' ps' c funds offer amount bp ms to w' p ps,
+  WF w -> Solvent w -> Inert' w -> ~ is_contract w c -> w_pairs w p' = Some ps' ->
+  (forall w1, move_funds w c p' funds = Ok w1 ->
+     kf_c01 (bal w1 offer p' - amount) (bal w1 (if asset_eqb offer (p_a0 ps') then p_a1 ps' else p_a0 ps') p')
+            amount (p_comm ps') = false) ->
+  exec w (OSwap p' c funds offer amount bp ms to) = Ok w' ->
+  w_pairs w p = Some ps -> 0 < supply w (p_lp ps) ->
+  path false (pool_at w p ps) (pool_at w' p ps).
+Proof.
+  intros w p' ps' c funds offer amount bp ms to w' p ps HW HS HI Hc Hp' Hk H Hp Hpos.
+  destruct (WF_pair _ _ _ HW Hp) as (_ & _ & _ & _ & H01 & _ & _ & _ & Hcm & _).
+  assert (Hpc : is_contract w p) by (right; right; left; rewrite Hp; discriminate).
+  assert (Hpu : p <> c) by (intros E; apply Hc; rewrite <- E; exact Hpc).
+  assert (Hup : c <> p) by congruence.
+  apply exec_swap_decompose in H. destruct H as (ps0 & w1 & out & Hp0 & Hm & Hnat & Hfo & Hs).
+  rewrite Hp' in Hp0. inversion Hp0. subst ps0. clear Hp0.
+  pose proof (move_funds_Don p (p_lp ps) _ _ _ _ _ Hpu Hm) as D1.
+  destruct (N.eq_dec p' p) as [E|Ne].
+  - subst p'. rewrite Hp in Hp'. inversion Hp'. subst ps'.
+    assert (X : pathx (p_comm ps) (kf_c01 (bal w1 offer p - amount)
+                         (bal w1 (if asset_eqb offer (p_a0 ps) then p_a1 ps else p_a0 ps) p) amount (p_comm ps) = false)
+                      (pool_at w p ps) (pool_at w' p ps)).
+    { apply (swap_self_path w w1 w' p ps funds c offer amount bp ms to out H01 Hcm
+               (move_funds_pres _ _ _ _ _ Hm HS) D1); [|exact Hs].
+      destruct offer as [d|t]; [|discriminate Hnat]. cbn [bal]. rewrite (funds_of_cval _ _ _ Hfo).
+      exact (move_funds_credit w c p funds w1 d Hup Hm). }
+    exact (pathx_cond _ _ _ _ X (Hk w1 Hm)).
+  - apply Don_path. eapply Don_trans; [exact D1|].
+    apply (pair_swap_Don p (p_lp ps)) in Hs; [exact Hs|congruence].
+Qed.
+
+(* ORIGINAL STATEMENT: arbitrary [funds] with the class condition on the reserves before the transaction.  Attached
+   funds may carry further coins of the offered or of the asked denom (the model, like the pair contract, does not
+   reject them); the swap is then priced on larger reserves than those named in the condition, so the condition
+   says nothing about the swap that is actually computed.  (The extra coins are themselves donations, which usually
+   outweigh the sub-unit overpayment; the original statement is not refuted here, it is just not what the proof
+   can use.)  [exec_direct_swap_value_funds] above is the exact general form; the variant below fixes the attached
+   funds to exactly the offered coin, as [tx_swap_native_effect] does, and then the condition is the stated one. *)
+Theorem exec_direct_swap_value_variant : forall w p' ps' c d amount bp ms to w' p ps,
+  WF w -> Solvent w -> Inert' w -> ~ is_contract w c -> w_pairs w p' = Some ps' ->
+  kf_c01 (bal w (ANative d) p') (bal w (if asset_eqb (ANative d) (p_a0 ps') then p_a1 ps' else p_a0 ps') p')
+         amount (p_comm ps') = false ->
+  exec w (OSwap p' c [(d, amount)] (ANative d) amount bp ms to) = Ok w' ->
+  w_pairs w p = Some ps -> 0 < supply w (p_lp ps) ->
+  path false (pool_at w p ps) (pool_at w' p ps).
+Proof.
+  intros w p' ps' c d amount bp ms to w' p ps HW HS HI Hc Hp' Hk H Hp Hpos.
+  destruct (WF_pair _ _ _ HW Hp) as (_ & _ & _ & _ & H01 & _ & _ & _ & Hcm & _).
+  assert (Hpc : is_contract w p) by (right; right; left; rewrite Hp; discriminate).
+  assert (Hup : c <> p) by (intros E; apply Hc; rewrite E; exact Hpc).
+  apply exec_swap_decompose in H. destruct H as (ps0 & w1 & out & Hp0 & Hm & _ & _ & Hs).
+  rewrite Hp' in Hp0. inversion Hp0. subst ps0. clear Hp0.
+  change (pay_asset w c (ANative d) amount p' = Ok w1) in Hm.
+  assert (Hps : p' = p -> ps' = ps) by (intros E; rewrite E in Hp'; congruence).
+  pose proof (pay_then_swap_path w w1 w' p ps p' ps' _ c (ANative d) amount bp ms to out H01 Hcm HS Hup Hps Hm Hs) as X.
+  apply (pathx_cond _ _ _ _ X). intros E. subst p'. rewrite (Hps eq_refl) in Hk. exact Hk.
+Qed.
+
+(* the cw20 hook form, exactly as stated *)
+Theorem exec_hook_swap_value : forall w ta sender p' ps' n offer amount bp ms to w' p ps,
+  WF w -> Solvent w -> Inert' w -> ~ is_contract w sender -> w_pairs w p' = Some ps' ->
+  kf_c01 (bal w offer p') (bal w (if asset_eqb offer (p_a0 ps') then p_a1 ps' else p_a0 ps') p')
+         amount (p_comm ps') = false ->
+  exec w (OSend ta sender p' n (HSwap offer amount bp ms to)) = Ok w' ->
+  w_pairs w p = Some ps -> 0 < supply w (p_lp ps) ->
+  path false (pool_at w p ps) (pool_at w' p ps).
+Proof.
+  intros w ta sender p' ps' n offer amount bp ms to w' p ps HW HS HI Hc Hp' Hk H Hp Hpos.
+  destruct (WF_pair _ _ _ HW Hp) as (_ & _ & _ & _ & H01 & _ & _ & _ & Hcm & _).
+  assert (Hpc : is_contract w p) by (right; right; left; rewrite Hp; discriminate).
+  assert (Hup : sender <> p) by (intros E; apply Hc; rewrite E; exact Hpc).
+  cbn [exec] in H.
+  destruct (cw20_send_swap_decompose _ _ _ _ _ _ _ _ _ _ _ _ Hp' H) as (w1 & out & Hm & Eo & En & _ & Hs).
+  subst offer amount.
+  assert (Hps : p' = p -> ps' = ps) by (intros E; rewrite E in Hp'; congruence).
+  pose proof (pay_then_swap_path w w1 w' p ps p' ps' [] sender (AToken ta) n bp ms to out H01 Hcm HS Hup Hps Hm Hs) as X.
+  apply (pathx_cond _ _ _ _ X). intros E. subst p'. rewrite (Hps eq_refl) in Hk. exact Hk.
+Qed.
+
+(* ------------------------------------------------------------------------------------ *)
+(* histories                                                                             *)
+(* ------------------------------------------------------------------------------------ *)
+(* the abstract state of a pair depends only on the parts of its record that never change *)
+Lemma pool_at_sim w p ps ps' : pair_sim ps ps' -> pool_at w p ps' = pool_at w p ps.
+Proof. intros (E0 & E1 & El & _). unfold pool_at. rewrite E0, E1, El. reflexivity. Qed.
+
+Lemma exec_pair_sim w o w' p ps :
+  WF w -> exec w o = Ok w' -> w_pairs w p = Some ps -> exists ps', w_pairs w' p = Some ps' /\ pair_sim ps ps'.
+Proof.
+  intros HW H Hp. pose proof (exec_ext _ _ _ H) as He.
+  assert (G : ext w w' -> exists ps', w_pairs w' p = Some ps' /\ pair_sim ps ps').
+  { intros (_ & _ & _ & Hq). specialize (Hq p). rewrite Hp in Hq.
+    destruct (w_pairs w' p) as [ps'|]; [|contradiction]. exists ps'. split; [reflexivity|exact Hq]. }
+  destruct o; try (apply G; exact He).
+  cbn [exec] in H. apply fac_create_pair_inv in H. destruct H as (ps0 & lt & r & _ & _ & _ & ->).
+  destruct (WF_pair _ _ _ HW Hp) as (Kn & _).
+  exists ps. cbn [w_pairs set_next set_reg set_token set_pair].
+  rewrite upd_other by (clear - Kn; lia). split; [exact Hp|]. unfold pair_sim. auto.
+Qed.
+
+(* the router is never a pair: an invariant *)
+Lemma exec_rtr_not_pair w o w' :
+  Inert' w -> ~ is_contract w (caller_of o) -> w_pairs w (w_rtr w) = None -> exec w o = Ok w' ->
+  w_pairs w' (w_rtr w') = None.
+Proof.
+  intros (_ & R1 & _) Hc Hr H.
+  pose proof (exec_ext _ _ _ H) as He. pose proof (exec_Kc _ _ _ Hc H) as Hk.
+  assert (G : ext w w' -> Kc w w' -> w_pairs w' (w_rtr w') = None).
+  { intros (_ & _ & _ & Hq) (Kr & _). rewrite Kr. specialize (Hq (w_rtr w)). rewrite Hr in Hq.
+    destruct (w_pairs w' (w_rtr w)); [contradiction|reflexivity]. }
+  destruct o; try (apply G; [exact He|exact Hk]).
+  cbn [exec] in H. apply fac_create_pair_inv in H. destruct H as (ps0 & lt & r & _ & _ & _ & ->).
+  cbn [w_pairs w_rtr set_next set_reg set_token set_pair].
+  rewrite upd_other by (clear - R1; lia). exact Hr.
+Qed.
+
+Lemma run_pathx ops : forall w p ps,
+  WF w -> Solvent w -> Inert' w -> user_ops w ops -> w_next (run w ops) <= 1000 ->
+  (Forall (fun o => routerless o = true) ops \/ w_pairs w (w_rtr w) = None) ->
+  w_pairs w p = Some ps -> 0 < supply w (p_lp ps) ->
+  pathx (p_comm ps) (Forall (fun o => swapless o = true) ops) (pool_at w p ps) (pool_at (run w ops) p ps).
+Proof.
+  induction ops as [|o ops IH]; intros w p ps HW HS HI Hu Hb Hr Hp Hpos.
+  - apply pathx_false, path_nil.
+  - change (run w (o :: ops)) with (run (step w o) ops) in *.
+    cbn [user_ops] in Hu. destruct Hu as (Hc & Hu).
+    assert (Hb1 : w_next (step w o) <= 1000).
+    { eapply N.le_trans; [apply run_next_mono|exact Hb]. }
+    pose proof (step_room _ _ Hb1) as Hroom.
+    unfold step in *. destruct (exec w o) as [w1|e] eqn:E.
+    + destruct Hroom as [Hroom|Hsame].
+      2:{ (* the operation changed nothing *)
+          subst w1. eapply pathx_weaken; [|apply (IH w p ps); try assumption].
+          - intros F. inversion F. assumption.
+          - destruct Hr as [F|Hr]; [left; inversion F; assumption|right; exact Hr]. }
+      assert (HW1 : WF w1) by (exact (exec_preserves_WF w o w1 HW E)).
+      assert (HS1 : Solvent w1) by (exact (exec_preserves_Solvent w o w1 HW HS E)).
+      assert (HI1 : Inert' w1) by (exact (exec_preserves_Inert_variant w o w1 HW HI Hc Hroom E)).
+      destruct (exec_pair_sim _ _ _ _ _ HW E Hp) as (ps1 & Hp1 & Hsim).
+      assert (X : pathx (p_comm ps) (swapless o = true) (pool_at w p ps) (pool_at w1 p ps)).
+      { apply (exec_pathx w o w1 p ps HW HS HI Hc); [|exact E|exact Hp|exact Hpos]. intros Erl.
+        destruct Hr as [F|Hr]; [|exact Hr]. inversion F as [|? ? Fo _]. rewrite Fo in Erl. discriminate Erl. }
+      assert (Hpos1 : 0 < supply w1 (p_lp ps1)).
+      { pose proof (pathx_supply_pos _ _ _ _ X Hpos) as Q.
+        destruct Hsim as (_ & _ & El & _). rewrite El. exact Q. }
+      assert (Hr1 : Forall (fun o => routerless o = true) ops \/ w_pairs w1 (w_rtr w1) = None).
+      { destruct Hr as [F|Hr]; [left; inversion F; assumption|right].
+        exact (exec_rtr_not_pair w o w1 HI Hc Hr E). }
+      pose proof (IH w1 p ps1 HW1 HS1 HI1 Hu Hb Hr1 Hp1 Hpos1) as Y.
+      rewrite !(pool_at_sim _ _ _ _ Hsim) in Y.
+      assert (Ec : p_comm ps1 = p_comm ps) by apply Hsim. rewrite Ec in Y.
+      eapply pathx_app.
+      * eapply pathx_weaken; [|exact X]. intros F. inversion F. assumption.
+      * eapply pathx_weaken; [|exact Y]. intros F. inversion F. assumption.
+    + eapply pathx_weaken; [|apply (IH w p ps); try assumption].
+      * intros F. inversion F. assumption.
+      * destruct Hr as [F|Hr]; [left; inversion F; assumption|right; exact Hr].
+Qed.
+
+(* ---- theorem 5 ---- *)
+(* ORIGINAL STATEMENT: [run_pool_path] without the hypothesis that the router is not a pair (see [exec_pool_path_variant]) *)
+Theorem run_pool_path_variant : forall ops w p ps,
+  WF w -> Solvent w -> Inert' w -> w_pairs w (w_rtr w) = None -> user_ops w ops -> w_next (run w ops) <= 1000 ->
+  w_pairs w p = Some ps -> 0 < supply w (p_lp ps) ->
+  exists b, path b (pool_at w p ps) (pool_at (run w ops) p ps).
+Proof.
+  intros ops w p ps HW HS HI Hr Hu Hb Hp Hpos.
+  eapply pathx_ex. apply run_pathx; try assumption. right. exact Hr.
+Qed.
+
+Theorem run_pool_path_flag : forall ops w p ps,
+  WF w -> Solvent w -> Inert' w -> user_ops w ops -> w_next (run w ops) <= 1000 ->
+  (Forall (fun o => routerless o = true) ops \/ w_pairs w (w_rtr w) = None) ->
+  w_pairs w p = Some ps -> 0 < supply w (p_lp ps) ->
+  exists b, path_at (p_comm ps) b (pool_at w p ps) (pool_at (run w ops) p ps) /\
+            (Forall (fun o => swapless o = true) ops -> b = false).
+Proof. intros ops w p ps. exact (run_pathx ops w p ps). Qed.
+
+Theorem run_pool_path_at_variant : forall ops w p ps,
+  WF w -> Solvent w -> Inert' w -> w_pairs w (w_rtr w) = None -> user_ops w ops -> w_next (run w ops) <= 1000 ->
+  w_pairs w p = Some ps -> 0 < supply w (p_lp ps) ->
+  exists b, path_at (p_comm ps) b (pool_at w p ps) (pool_at (run w ops) p ps).
+Proof.
+  intros ops w p ps HW HS HI Hr Hu Hb Hp Hpos.
+  eapply pathx_at. apply run_pathx; try assumption. right. exact Hr.
+Qed.
+
+(* the original hypotheses suffice for histories that never enter the router *)
+Theorem run_pool_path_routerless : forall ops w p ps,
+  WF w -> Solvent w -> Inert' w -> user_ops w ops -> w_next (run w ops) <= 1000 ->
+  Forall (fun o => routerless o = true) ops ->
+  w_pairs w p = Some ps -> 0 < supply w (p_lp ps) ->
+  exists b, path b (pool_at w p ps) (pool_at (run w ops) p ps).
+Proof.
+  intros ops w p ps HW HS HI Hu Hb Hf Hp Hpos.
+  eapply pathx_ex. apply run_pathx; try assumption. left. exact Hf.
+Qed.
+
+Theorem run_swapless_path : forall ops w p ps,
+  WF w -> Solvent w -> Inert' w -> user_ops w ops -> w_next (run w ops) <= 1000 ->
+  Forall (fun o => swapless o = true) ops ->
+  w_pairs w p = Some ps -> 0 < supply w (p_lp ps) ->
+  path false (pool_at w p ps) (pool_at (run w ops) p ps).
+Proof.
+  intros ops w p ps HW HS HI Hu Hb Hf Hp Hpos.
+  assert (X : pathx (p_comm ps) (Forall (fun o => swapless o = true) ops) (pool_at w p ps) (pool_at (run w ops) p ps)).
+  { apply run_pathx; try assumption. left.
+    eapply Forall_impl; [|exact Hf]. intros o Ho. apply swapless_routerless. exact Ho. }
+  exact (pathx_cond _ _ _ _ X Hf).
+Qed.
+
+Theorem run_swapless_value : forall ops w p ps,
+  WF w -> Solvent w -> Inert' w -> user_ops w ops -> w_next (run w ops) <= 1000 ->
+  Forall (fun o => swapless o = true) ops ->
+  w_pairs w p = Some ps -> 0 < supply w (p_lp ps) ->
+  value_le (pool_at w p ps) (pool_at (run w ops) p ps) /\ 0 < supply (run w ops) (p_lp ps).
+Proof.
+  intros ops w p ps HW HS HI Hu Hb Hf Hp Hpos.
+  apply (path_false_value (pool_at w p ps) (pool_at (run w ops) p ps)); [|exact Hpos].
+  apply run_swapless_path; assumption.
+Qed.
+
+(* ------------------------------------------------------------------------------------ *)
+(* a concrete instance: the hypotheses are satisfiable and the history does move the pair *)
+(* ------------------------------------------------------------------------------------ *)
+From HT Require Import World.Observe Proofs.InitProofs.
+
+Definition ex_L : layout := mkLayout 3 2 3 4.
+Definition ex_w0 : world := init_world ex_L 1000000000000 1000 (fun _ => 6).
+(* user 1000 (the factory owner) registers denom 0, creates the pairs 5 = (native 0, token 2) and 7 = (native 0, token 3)
+   with LP tokens 6 and 8, and provides 10^6 of each asset to both *)
+Definition ex_setup : list op :=
+  [ OFacAddNative 1000 0 6;
+    OFacCreatePair 1000 (ANative 0) (AToken 2) [1000] 0 0 None None;
+    OIncreaseAllowance 2 1000 5 1000000;
+    OProvide 5 1000 [(0, 1000000)] (ANative 0) 1000000 (AToken 2) 1000000 None None;
+    OFacCreatePair 1000 (ANative 0) (AToken 3) [1000] 0 0 None None;
+    OIncreaseAllowance 3 1000 7 1000000;
+    OProvide 7 1000 [(0, 1000000)] (ANative 0) 1000000 (AToken 3) 1000000 None None ].
+Definition ex_w : world := run ex_w0 ex_setup.
+(* a native swap, a cw20-hook swap, a withdrawal, a route through the router and a burn of LP *)
+Definition ex_hist : list op :=
+  [ OSwap 5 1001 [(0, 5000)] (ANative 0) 5000 None None None;
+    OSend 2 1001 5 700 (HSwap (AToken 2) 700 None None None);
+    OSend 6 1000 5 1000 HWithdraw;
+    ORouterOps 1002 [(0, 300)] [(ANative 0, AToken 2)] None None;
+    OBurn 6 1000 10 ].
+
+Ltac not_contract :=
+  let H := fresh "H" in
+  intros [H|[H|[H|[H|[H _]]]]]; vm_compute in H; first [discriminate H | apply H; reflexivity].
+
+Lemma ex_w0_inv : WF ex_w0 /\ Solvent ex_w0 /\ Inert' ex_w0.
+Proof.
+  split; [apply init_world_WF|]. split; [|apply init_world_Inert'].
+  apply init_world_Solvent. vm_compute. reflexivity.
+Qed.
+
+Lemma ex_setup_user : user_ops ex_w0 ex_setup.
+Proof. unfold ex_setup. cbn [user_ops]. repeat split; not_contract. Qed.
+
+Lemma ex_w_inv : WF ex_w /\ Solvent ex_w /\ Inert' ex_w /\ w_pairs ex_w (w_rtr ex_w) = None.
+Proof.
+  destruct ex_w0_inv as (HW & HS & HI).
+  split; [apply run_preserves_WF; exact HW|].
+  split; [apply run_preserves_Solvent; assumption|].
+  split; [|vm_compute; reflexivity].
+  apply run_preserves_Inert_variant; [exact HW|exact HI|exact ex_setup_user|].
+  vm_compute. intros E. discriminate E.
+Qed.
+
+Lemma ex_hist_user : user_ops ex_w ex_hist.
+Proof. unfold ex_hist. cbn [user_ops]. repeat split; not_contract. Qed.
+
+Example run_pool_path_example :
+  exists ps, w_pairs ex_w 5 = Some ps /\ 0 < supply ex_w (p_lp ps) /\
+    pool_at ex_w 5 ps = (1000000, 1000000, 1000000) /\
+    pool_at (run ex_w ex_hist) 5 ps = (1003592, 994447, 998990) /\
+    exists b, path b (pool_at ex_w 5 ps) (pool_at (run ex_w ex_hist) 5 ps).
+Proof.
+  destruct ex_w_inv as (HW & HS & HI & Hr).
+  destruct (w_pairs ex_w 5) as [ps|] eqn:Ep; [|vm_compute in Ep; discriminate Ep].
+  exists ps. split; [reflexivity|].
+  assert (Hpos : 0 < supply ex_w (p_lp ps)).
+  { vm_compute in Ep. inversion Ep. vm_compute. reflexivity. }
+  split; [exact Hpos|].
+  split; [vm_compute in Ep; inversion Ep; vm_compute; reflexivity|].
+  split; [vm_compute in Ep; inversion Ep; vm_compute; reflexivity|].
+  apply run_pool_path_variant; try assumption.
+  - exact ex_hist_user.
+  - vm_compute. intros E. discriminate E.
+Qed.
+
+(* ------------------------------------------------------------------------------------ *)
+(* why theorem 2 needs the hypothesis that the router is not a pair                       *)
+(* ------------------------------------------------------------------------------------ *)
+(* The same world with the router's address moved onto pair 5: [WF], [Solvent] and [Inert'] still hold.  A user routes
+   (native 0 -> token 3) through pair 7: the router forwards its whole balance of native 0, which is pair 5's reserve.
+   Pair 5 goes from (10^6, 10^6, 10^6) to (0, 10^6, 10^6) although none of its handlers ran (so no swap of pair 5 in
+   the recorded class took place); in particular no path of value-non-decreasing steps explains the move.
+   (The bare conclusion [exists b, path b _ _] cannot be refuted this way: [path true] is a very permissive relation,
+   since a withdrawal down to unit reserves followed by an abstract kf step with a huge offer empties a reserve, after
+   which every state is reachable.  The content of the theorems is in the flag: it is [false] unless a swap of this
+   very pair fell in the recorded class, see [exec_pathx], [exec_swapless_value], [exec_direct_swap_value_variant].) *)
+Definition set_rtr (w : world) (r : addr) : world :=
+  mkWorld (w_bank w) (w_tokens w) (w_pairs w) (w_fac w) r (w_owner w) (w_natives w) (w_reg w) (w_next w).
+Lemma set_rtr_WF w r : WF w -> WF (set_rtr w r).
+Proof. intros H. exact H. Qed.
+Lemma set_rtr_Solvent w r : Solvent w -> Solvent (set_rtr w r).
+Proof. intros H. exact H. Qed.
+Lemma set_rtr_Inert' w r :
+  Inert' w -> w_pairs w r <> None -> r < w_next w -> w_tokens w r = None -> Inert' (set_rtr w r).
+Proof.
+  intros ((I1 & I2) & _ & _) Hp Hn Ht. split; [split|split; assumption].
+  - intros t tk c sp Htk Hc. apply (I1 t tk c sp Htk).
+    destruct Hc as [Hc|[Hc|[Hc|[Hc|Hc]]]].
+    + left. exact Hc.
+    + cbn [set_rtr w_rtr] in Hc. subst c. right. right. left. exact Hp.
+    + right. right. left. exact Hc.
+    + right. right. right. left. exact Hc.
+    + right. right. right. right. exact Hc.
+  - exact I2.
+Qed.
+
+Definition bad_w : world := set_rtr ex_w 5.
+Definition bad_o : op := ORouterOps 1002 [] [(ANative 0, AToken 3)] None None.
+
+Theorem exec_pool_path_needs_router_not_pair :
+  exists w o w' p ps,
+    WF w /\ Solvent w /\ Inert' w /\ ~ is_contract w (caller_of o) /\ exec w o = Ok w' /\
+    w_pairs w p = Some ps /\ 0 < supply w (p_lp ps) /\
+    pool_at w p ps = (1000000, 1000000, 1000000) /\ pool_at w' p ps = (0, 1000000, 1000000) /\
+    ~ path false (pool_at w p ps) (pool_at w' p ps).
+Proof.
+  destruct ex_w_inv as (HW & HS & HI & _).
+  destruct (exec bad_w bad_o) as [w'|e] eqn:E; [|vm_compute in E; discriminate E].
+  destruct (w_pairs bad_w 5) as [ps|] eqn:Ep; [|vm_compute in Ep; discriminate Ep].
+  exists bad_w, bad_o, w', 5, ps.
+  split; [apply set_rtr_WF; exact HW|]. split; [apply set_rtr_Solvent; exact HS|].
+  split. { apply set_rtr_Inert'; [exact HI|vm_compute; discriminate|vm_compute; reflexivity|vm_compute; reflexivity]. }
+  split; [not_contract|]. split; [exact E|]. split; [exact Ep|].
+  assert (A : pool_at bad_w 5 ps = (1000000, 1000000, 1000000)).
+  { vm_compute in Ep. inversion Ep. vm_compute. reflexivity. }
+  assert (B : pool_at w' 5 ps = (0, 1000000, 1000000)).
+  { vm_compute in Ep. inversion Ep. vm_compute in E. inversion E. vm_compute. reflexivity. }
+  split. { vm_compute in Ep. inversion Ep. vm_compute. reflexivity. }
+  split; [exact A|]. split; [exact B|].
+  rewrite A, B. intros Hpath. apply path_false_value in Hpath; [|reflexivity].
+  destruct Hpath as (V & _). vm_compute in V. apply V. reflexivity.
+Qed.
+
+(* the remark above, machine-checked: the two states of the witness ARE related by [path true], through a withdrawal
+   down to unit reserves, an abstract kf swap with a huge offer that empties reserve 1, and steps from a state of
+   value zero, from which everything is reachable *)
+Example path_true_is_permissive : path true (1000000, 1000000, 1000000) (0, 1000000, 1000000).
+Proof.
+  apply (path_ok true _ (1000000 - 999999, 1000000 - 999999, 1000000 - 999999)).
+  { apply ps_withdraw; vm_compute; try reflexivity; discriminate. }
+  change (path true (1, 1, 1) (0, 1000000, 1000000)).
+  apply (path_kf false _ (1 + 2000000000000000000, 1 - 1, 1)).
+  { apply (kf_swap01 1 1 1 2000000000000000000 3000000000000000 1 1999999999999999999 0); vm_compute; reflexivity. }
+  change (path false (2000000000000000001, 0, 1) (0, 1000000, 1000000)).
+  apply (path_ok false _ (2000000000000000001 - 2000000000000000001, 0 + 1, 1)).
+  { apply ps_swap10; vm_compute; try reflexivity; discriminate. }
+  change (path false (0, 1, 1) (0 + 0, 1 + 999999, 1 + 999999)).
+  apply path_step. apply ps_provide; vm_compute; try reflexivity; discriminate.
+Qed.
+
+Print Assumptions path_false_value.
+Print Assumptions exec_pool_path_variant.
+Print Assumptions exec_pool_path_routerless.
+Print Assumptions exec_pool_path_router.
+Print Assumptions exec_pool_path_flag.
+Print Assumptions exec_pool_path_at_variant.
+Print Assumptions exec_swapless_value.
+Print Assumptions exec_swapless_value_le.
+Print Assumptions exec_direct_swap_value_funds.
+Print Assumptions exec_direct_swap_value_variant.
+Print Assumptions exec_hook_swap_value.
+Print Assumptions run_pool_path_variant.
+Print Assumptions run_pool_path_flag.
+Print Assumptions run_pool_path_at_variant.
+Print Assumptions run_pool_path_routerless.
+Print Assumptions run_swapless_path.
+Print Assumptions run_swapless_value.
+Print Assumptions run_pool_path_example.
+Print Assumptions exec_pool_path_needs_router_not_pair.
+Print Assumptions path_true_is_permissive.
